@@ -270,3 +270,28 @@ ENTRY(h_c09){
         checkStructureN([&](long l) -> const auto& { return tree.getCellGroupsAtLevelTarget(l); }, space, leafIdx, NS, NT, bsT, a1 != 0, S_LEVEL_SET);
     }
 }
+
+// one side empty: sources without targets / targets without sources are valid inputs of the target/source mode
+enum AidET { ET_EMPTY = 440 };
+ENTRY(h_tsm_empty){
+    forkCfg(a0, a1, a3);
+    const long which = irsym_choose(3);          // 0: no sources, 1: no targets, 2: neither
+    const Cfg cfg = makeCfg();
+    for(long p = 0; p < NPART; ++p){
+        for(int d = 0; d < DIM; ++d){ gP.k[p][d] = chooseK(); gP.pos[p][d] = cfg.getBoxCorner()[d] + Real(gP.k[p][d]) * (cfg.getLeafWidths()[d] / Real(2)); }
+        gP.w[p] = irsym_symbolic_u64();
+    }
+    PosVec src, tgt;
+    if(which == 1) for(long p = 0; p < NS; ++p) src.push_back(gP.pos[p]);
+    if(which == 0) for(long p = 0; p < NT; ++p) tgt.push_back(gP.pos[NS + p]);
+    TreeTsm tree(cfg, src, tgt, a0, a1 != 0);
+    gRS.clear(); gRT.clear(); gTK = TFlags();
+    AlgoT algo(cfg, a3 < 0 ? TbfDefaultLastLevel : a3);
+    algo.execute(tree);
+    bool ok = true; long seen = 0;
+    tree.applyToAllLeavesTarget([&](auto&& hdr, const long*, auto&&, auto&& rhs){ for(long i = 0; i < hdr.nbParticles; ++i, ++seen) ok = ok & (rhs[0][i] == 0); });
+    irsym_assert(ok && seen == (long)tgt.size(), ET_EMPTY);
+    tree.rebuild();
+    algo.execute(tree);
+    irsym_observe(seen);
+}
